@@ -358,10 +358,12 @@ class _CopyInternalsTraversal(HasTraversalDispatch):
                 # TODO: use abc classes
                 assert False
 
-        return [
-            [copy(sub_element) for sub_element in sequence]
-            for sequence in element
-        ]
+        return tuple(
+            [
+                [copy(sub_element) for sub_element in sequence]
+                for sequence in element
+            ]
+        )
 
     def visit_propagate_attrs(
         self, attrname, parent, element, clone=_clone, **kw
